@@ -9,7 +9,6 @@ use crate::simdisk::SimDisk;
 use libtw2_common::digest::Sha256;
 use libtw2_demo::ddnet::{Chunk, DemoReader, DemoWriter};
 use libtw2_demo::{DemoKind, RawChunk, Reader, Writer};
-use libtw2_gamenet_common::traits::SnapObj as _;
 use libtw2_gamenet_ddnet::msg::game as g;
 use libtw2_gamenet_ddnet::snap_obj as so;
 use libtw2_gamenet_ddnet::Protocol;
